@@ -297,6 +297,19 @@ func runC19(c *Ctx) {
 		s1, e1 := data.NewI2PString(string(s))
 		s2, e2 := data.ToI2PString(string(s))
 		c.Check("entry_points_agree", (e1 == nil) == (e2 == nil) && bytes.Equal(s1, s2), "NewI2PString vs ToI2PString", [][]byte{s}, "", "differ")
+		// the same question again for the same string (short ones: option keys recur), after the
+		// caller has written into the results it was given: the two entry points still agree
+		if i%2 == 0 {
+			s = []byte([]string{"host", "port", "caps", "s", "i", "v", "netId", "router.version", ""}[r.Intn(9)])
+		}
+		for rep := 0; rep < 2; rep++ {
+			t1, f1 := data.NewI2PString(string(s))
+			t2, f2 := data.ToI2PString(string(s))
+			okr := (f1 == nil) == (f2 == nil) && bytes.Equal(t1, t2) && (f1 != nil || (len(t1) == len(s)+1 && string(t1[1:]) == string(s)))
+			c.Check("entry_points_agree", okr, "NewI2PString vs ToI2PString", [][]byte{s}, "", fmt.Sprintf("differ on call %d for the same string (earlier results were overwritten by the caller): %x vs %x", rep+1, []byte(t1), []byte(t2)))
+			scribble(t1)
+			scribble(t2)
+		}
 		v := int(r.U64() >> uint(r.Intn(64)))
 		sz := r.Intn(10)
 		i1, ie1 := data.NewIntegerFromInt(v, sz)
